@@ -6,6 +6,10 @@ baseline = json.load(open("/root/.vp/BASELINE.json"))["cmd"]
 claimed = {
  "C07": ("Every obligation is a verification condition over the SSA of the real integer functions (py/int.go, py/bigint.go, py/bool.go) under contracts whose postconditions state the exact mathematical result (den(r) == a op b over unbounded integers), canonical representation and the Python exception; discharged for all 64-bit operands and all big values by SMT. This is the right level because the property is 'for all operands' over loop-free code.",
          "math/big is trusted through the extern contracts in contracts/10_mathbig.gvc (exact arithmetic on a ghost value); global invariants about package-level constants are assumed; text conversion (strconv/fmt) is outside the contracts.", "2, 4 (C07)"),
+ "C10": ("Owns the zero-annotation safety obligations (index and slice bounds, nil dereference, failed type assertion, division by zero, negative shift, make size, nil-map write, explicit panic) and the call-site preconditions of every function under contract for any property; each is a VC over the real SSA, discharged for all inputs. Sites that fail are either fixed in the repository or listed in known_findings.json with the input region outside of which the obligation is proved.",
+         "Only functions under contract are covered (listed in the evidence); memory exhaustion, stack overflow, functions without contracts and panics inside reflect-driven lookups are outside. User-defined Python code reached through interface calls is modelled as 'may modify every Python-mutable heap component'.", "4 (C10)"),
+ "C13": ("Slice.GetIndices is proved equal to the slice.indices specification over unbounded operands (including the in-bounds corollary for every produced index), Index/IndexInt/IndexIntCheck to the normalisation spec, and list/tuple indexing, slicing, concatenation and deletion to element-wise postconditions over the whole result with the operands unchanged and results fresh; loops carry quantified invariants.",
+         "Operands of user-defined types with __index__ are outside the functional clauses (frame is 'modifies everything'); str, range and bytes are not yet under contract; replay of sequence counterexamples is not implemented (violations there are reported with no-failing-input-found).", "4 (C13)"),
 }
 na = {
  "C06": "not applicable to this technique family: the only faithful specification of the LALR parser is the grammar itself (DESIGN.md section 5)",
